@@ -122,7 +122,11 @@ def _launch(rng, depth=0):
         inner.insert(rng.randrange(len(inner) + 1),
                      {'k': 'sys', 'name': rng.pick(['DBG_DYLD_TIMING_DLOPEN', 'DBG_DYLD_TIMING_DLCLOSE', 'DBG_DYLD_TIMING_DLADDR']), 's': [scope, 0, 0, 0], 'e': [scope, 1, 0, 0],
                       'in': [worlds.op_imap(rng, worlds.draw_uuid(rng), base + rng.randrange(0, 1 << 16), shared=rng.chance(0.3))]})
-    return {'k': 'sys', 'name': 'DBG_DYLD_TIMING_LAUNCH_EXECUTABLE', 's': [rng.word(), rng.word(), 0, 0], 'e': rng.words(), 'in': inner}
+    s_ = [rng.word(), rng.word(), 0, 0]
+    maps_ = [x for x in inner if x.get('name') in ('DYLD_uuid_map_a', 'DYLD_uuid_shared_cache_a')]
+    if maps_ and rng.chance(0.25):
+        s_[1] = rng.pick(maps_)['a'][2]        # the launched executable's own header address is one of the images' load addresses
+    return {'k': 'sys', 'name': 'DBG_DYLD_TIMING_LAUNCH_EXECUTABLE', 's': s_, 'e': rng.words(), 'in': inner}
 
 
 def _sample(rng, tid):
